@@ -99,7 +99,10 @@ Fwd(t) == ts[t].fwd
 \* (BaseFwd); then every backward leaf with an end of its own is an ANCHOR, and the tasks it depends on (own edges, leaf
 \* predecessors only, transitively) are turned backward too so that they finish "just in time" for it -- unless a task is
 \* forward AND has a start to keep (own or inherited from a container): that one stays, and nothing beyond it is touched.
-BaseFwd(t) == IF P.alap /\ ~T(t).expl THEN FALSE ELSE T(t).fwd
+\* `scheduling` is inherited: the nearest declaration on the way up decides, the project-level default where there is none
+RECURSIVE ModeFrom(_)
+ModeFrom(t) == IF T(t).expl THEN T(t).fwd ELSE IF T(t).parent = 0 THEN ~P.alap ELSE ModeFrom(T(t).parent)
+BaseFwd(t) == ModeFrom(t)
 Anchors == {t \in Leafs : ~BaseFwd(t) /\ T(t).pinEnd >= 0}
 OwnPreds(t) == {d.p : d \in {x \in SeqSet(T(t).deps) : x.p # 0}}
 Keeps(t) == BaseFwd(t) /\ (T(t).pin >= 0 \/ T(t).inhStart >= 0)
@@ -241,9 +244,12 @@ P05At(ls, k) == ls[k] <= LimDef(k).valSec * P.L
 \* C04 for one task at the moment its dates are reported (both directions; own pin exempts)
 \* on-start edges of backward tasks are outside the claim (C04 quantifier) and skipped
 Pinned(t) == IF Fwd(t) THEN T(t).pin >= 0 ELSE T(t).pinEnd >= 0
+\* the direction of an edge's other end: a leaf has its own, a container that of the leaves inside it (whatever `scheduling`
+\* says on the container itself: it places nothing)
+SameDir(p, t) == IF T(p).leaf THEN ts[p].fwd = Fwd(t) ELSE \A k \in {x \in Leafs : p \in AncT(x)} : ts[k].fwd = Fwd(t)
 P04Of(t, st, en) ==
    /\ ~Pinned(t) =>
-         \A d \in {x \in AllDeps(t) : x.p # 0 /\ ts[x.p].sched /\ ts[x.p].fwd = Fwd(t) /\ (x.onstart => Fwd(t))} :
+         \A d \in {x \in AllDeps(t) : x.p # 0 /\ ts[x.p].sched /\ SameDir(x.p, t) /\ (x.onstart => Fwd(t))} :
             st >= (IF d.onstart THEN ts[d.p].start ELSE ts[d.p].end) + d.gap
    /\ \A u \in {v \in Succs(t) : ts[v].sched /\ ~Pinned(v) /\ ts[v].fwd = Fwd(t)} :   \* successors placed before t (backward mode)
          \A d \in {x \in AllDeps(u) : x.p \in ({t} \cup AncT(t)) /\ x.p \notin AncT(u) /\ ~x.onstart} : ts[u].start >= en + d.gap
